@@ -8,9 +8,9 @@ def register(prop, J):
               "non-trivial = a deletion below depth 1 or inside a collection, or an unknown field next to a missing one; distinct by "
               "(reader, type, edited document)",
          jobs=[
-             J("missing-v2", "v2", "codecprops", "^TestC06", checks=(12000, 600000), shards=(4, 16), prepare="prepare_codec",
+             J("missing-v2", "v2", "codecprops", "^TestC06", checks=(12000, 7200000), shards=(4, 16), prepare="prepare_codec",
                extra_pkgs=["dyn", "gendrv"], timeout=(900, 3000)),
-             J("missing-v1", "v1", "codecprops", "^TestC06", checks=(8000, 300000), shards=(4, 16), prepare="prepare_codec",
+             J("missing-v1", "v1", "codecprops", "^TestC06", checks=(8000, 3600000), shards=(4, 16), prepare="prepare_codec",
                extra_pkgs=["dyn", "gendrv"], timeout=(900, 3000)),
          ],
          level_text="generated edit scripts over valid documents against a model of the missing-required-field set (full paths, one "
